@@ -128,6 +128,7 @@ PROPS = {
         "scenarios": [
             {"name": "group", "quick": 120000, "thorough": 4000000, "thorough_time": 200},
             {"name": "group-traits", "quick": 20000, "thorough": 1000000, "thorough_time": 120},
+            {"name": "group-large", "quick": 4000, "thorough": 200000, "thorough_time": 60},
         ],
         "case_space": 2246,
         "case_space_what": "strategy in {All,Most,Any,Fast,Race} x n in 0..4 x every success/failure vector x every completion order (443 each) + One x n in 0..4 x every outcome vector (31); plain members only",
